@@ -7,7 +7,7 @@ From stdpp Require Import base option list numbers fin_maps nmap.
 From Verif.Base Require Import Bytes.
 From Verif.Topics Require Import Predefined.
 From Verif.Codec Require Import Packets Decode Encode RefParse.
-From Verif.Checkers Require Import ChkCodec ChkGw ChkGw2 ChkGw3 ChkGw4 ChkGw5 ChkGw6 ChkCl ChkCl2 ChkCl3 ChkCl4 ChkCl5 ChkE2E.
+From Verif.Checkers Require Import ChkCodec ChkGw ChkGw2 ChkGw3 ChkGw4 ChkGw5 ChkGw6 ChkGw7 ChkCl ChkCl2 ChkCl3 ChkCl4 ChkCl5 ChkE2E.
 From Verif.Gateway Require Import GwTypes GwStep Sound_C07C08C09 Sound_Timed.
 From Verif.Match Require Import Match.
 From Verif.Util Require Import IdSeq.
@@ -32,4 +32,4 @@ Extraction "model.ml"
   parse_options tool_cfg gateway_starts client_tool_starts parse_line
   chk_C23c chk_C27 chk_C17 chk_C31c cmon_init cmon_step
   sys_init sys_step sys_run broker_init cl_next_deadline gw_next_deadline
-  emon_init emon_step mon6_init mon6_step mon6r_init mon6r_step chk_C06c c34_excluded clock_ok adv_ok cl_fresh chk_C16 ka_init ka_step ka_run ko_cl kmon_init kmon_step kmon_run chk_C27b ka_user_ok ka_clock_ok.
+  emon_init emon_step mon6_init mon6_step mon6r_init mon6r_step mon7_init mon7_step chk_C06c c34_excluded clock_ok adv_ok cl_fresh chk_C16 ka_init ka_step ka_run ko_cl kmon_init kmon_step kmon_run chk_C27b ka_user_ok ka_clock_ok.
